@@ -405,6 +405,20 @@ def measureCells [Num α] (s : Est α) (proj : Mat α) (value r2 : α) : Option 
   let pre ← p1.add p2
   pure (state, pre)
 
+/-- `if !ext { proj[(0, offset_index(id))] = v }` -/
+def projWrite [Num α] (s : Est α) (proj : Mat α) (ext : Bool) (id : Nat) (v : α) : R (Mat α) :=
+  if !ext then do
+    let c ← getClock s id
+    orPanic <| proj.set 0 c.offsetIndex v
+  else pure proj
+
+/-- `if delay_link { proj[(0, link_index)] = 1.0 }` -/
+def projLink [Num α] (s : Est α) (proj : Mat α) (delayLink : Bool) (link : LinkId) : R (Mat α) :=
+  if delayLink then do
+    let l ← getLink s link
+    orPanic <| proj.set 0 l.index Num.one
+  else pure proj
+
 /-- the measurement projection row (`IndexMut` writes of -1 / 1 / 1) -/
 def measureProj [Num α] (s : Est α) (link : LinkId) (forward delayLink : Bool) : R (Mat α) :=
   let n := s.state.rows
@@ -414,19 +428,9 @@ def measureProj [Num α] (s : Est α) (link : LinkId) (forward delayLink : Bool)
   let toExt := isExternal s to
   if fromExt && toExt then .error .BothClocksExternal
   else do
-    let proj : Mat α := Mat.zero 1 n
-    let proj ← if !fromExt then do
-        let c ← getClock s frm
-        orPanic <| proj.set 0 c.offsetIndex Num.negOne
-      else pure proj
-    let proj ← if !toExt then do
-        let c ← getClock s to
-        orPanic <| proj.set 0 c.offsetIndex Num.one
-      else pure proj
-    if delayLink then do
-        let l ← getLink s link
-        orPanic <| proj.set 0 l.index Num.one
-      else pure proj
+    let proj ← projWrite s (Mat.zero 1 n) fromExt frm Num.negOne
+    let proj ← projWrite s proj toExt to Num.one
+    projLink s proj delayLink link
 
 /-- `measurement(direction, offset, delay_link)`; `link`/`forward` give the directed link's clocks -/
 def measurement [Num α] (s : Est α) (link : LinkId) (forward : Bool) (value uncert : α)
